@@ -1296,7 +1296,12 @@ func (fc *FnCtx) doRecv(x *ssa.UnOp) {
 	ct := x.X.Type().Underlying().(*types.Chan)
 	v := fc.freshConst("recv", u.SortOf(ct.Elem()))
 	fc.assume(fc.typeFacts(ct.Elem(), v, 1))
-	fc.abstractedNote("channel receive yields an arbitrary value of the element type")
+	if ci := fc.chanInvFor(x.X); ci != nil {
+		fc.assume(fc.chanInvTerm(ci, TV(v), ct.Elem(), x.Pos()))
+		fc.abstractedNote("channel invariant of '" + ci.Name + "' (proved at every send; the channel is confined and never closed) is assumed of the value received")
+	} else {
+		fc.abstractedNote("channel receive yields an arbitrary value of the element type")
+	}
 	fc.havocVolatileOnSync()
 	if x.CommaOk {
 		ok := fc.freshConst("recvok", SBool)
@@ -1328,6 +1333,9 @@ func (fc *FnCtx) doSend(x *ssa.Send) {
 		if sd == x {
 			ord = i + 1
 		}
+	}
+	if ci := fc.chanInvFor(x.Chan); ci != nil {
+		fc.assert("chaninv", fmt.Sprintf("%s:send#%d.chaninv(%s)", fc.name, ord, ci.Name), fc.chanInvTerm(ci, v, x.X.Type(), x.Pos()), "channel invariant: "+ci.Cl.Src, x.Pos(), false)
 	}
 	for _, aa := range fc.contract.Asserts {
 		if aa.Anchor != "send" || (aa.Ord != ord && aa.Ord != -1) || aa.Cl == nil {
